@@ -186,6 +186,19 @@ check("C10", "exploration",
       "runtime monitoring: differential oracle (ports of documented definitions) + output laws over generated calls",
       "DESIGN.md §3 C10")
 
+check("C11", "exploration",
+      "Evaluates the string, parser, codec and hash functions named by the property on strings of length 0..12 over "
+      "{a, b, ',', ' ', e-acute, sharp-s, CJK, astral emoji, combining mark} with offsets / counts from below 0 to beyond the "
+      "length, overlapping and repeating patterns, code points at every UTF-8 / UTF-16 boundary, numeric strings "
+      "around 2^53 and digit validity, byte arrays with invalid UTF-8, malformed base64, wrong-type arguments, and "
+      "compares value / error-ness with ports of the documented definitions (hashlib / base64 / codecs for the "
+      "codecs); evaluates inverse laws (encode/decode, split/join, chars, parseJson/parseYaml of manifestJson) on "
+      "the real outputs.",
+      "The ports abstain where the published implementations disagree: empty split delimiter, base64 of "
+      "non-Latin-1 strings, decodeUTF8 of invalid bytes, parseInt beyond 2^53. Error identity is error-vs-value.",
+      "runtime monitoring: differential oracle (definition ports + hashlib/base64/codecs) + inverse laws over generated calls",
+      "DESIGN.md §3 C11")
+
 NOT_APPLICABLE = []
 
 
